@@ -39,6 +39,8 @@ SELECTIONS = [
     (["temp", "nope"], ["nope", "density", "Z"]),
     (None, ["Z"]),
     (["Y(H2)", "density"], ["density", "Zvar"]),
+    (["Y(H2)", "temp", "density"], ["Zvar", "Z"]),
+    (["density", "Y(H2)", "temp"], ["Zvar", "Z", "density"]),
 ]
 
 
@@ -139,6 +141,10 @@ def cases(tier, seed):
                     "sels": list(range(len(SELECTIONS))), "forms": True, "w": 10})
     for name, mm in mismatches():
         out.append({"kind": "mismatch", "name": name, "geo": geo, "seed": seed})
+        for xg in scope.extreme_geometries(3):
+            out.append({"kind": "mismatch", "name": name, "geo": xg, "seed": seed})
+    for xg in scope.extreme_geometries(3):
+        out.append({"kind": "layout", "geo": xg, "la": [L_id[5], None], "lb": [L_id[7], L_id[-1]], "seed": seed, "sels": [0, 2], "forms": False})
     out.append({"kind": "far", "seed": seed})
     return out
 
